@@ -199,6 +199,37 @@ func regexSearchToSMT(pat string) (string, error) {
 	return "(re.++ " + strings.Join(parts, " ") + ")", nil
 }
 
+// fixedLen: the length of every string in the node's language, if it is fixed.
+func fixedLen(re *syntax.Regexp) (int, bool) {
+	switch re.Op {
+	case syntax.OpEmptyMatch:
+		return 0, true
+	case syntax.OpLiteral:
+		return len(re.Rune), true
+	case syntax.OpCharClass, syntax.OpAnyChar, syntax.OpAnyCharNotNL:
+		return 1, true
+	case syntax.OpCapture:
+		return fixedLen(re.Sub[0])
+	case syntax.OpRepeat:
+		if re.Min == re.Max {
+			if n, ok := fixedLen(re.Sub[0]); ok {
+				return n * re.Min, true
+			}
+		}
+	case syntax.OpConcat:
+		t := 0
+		for _, s := range re.Sub {
+			n, ok := fixedLen(s)
+			if !ok {
+				return 0, false
+			}
+			t += n
+		}
+		return t, true
+	}
+	return 0, false
+}
+
 type regexDecomp struct {
 	whole  string // search language
 	m0     Term
@@ -227,12 +258,18 @@ func regexDecompose(fc *FnCtx, pat string, subject Term) (*regexDecomp, error) {
 	var walk func(n *syntax.Regexp, optional bool) (Term, error)
 	walk = func(n *syntax.Regexp, optional bool) (Term, error) {
 		if !hasCapture(n) {
+			if n.Op == syntax.OpLiteral && n.Flags&syntax.FoldCase == 0 {
+				return StrLit(string(n.Rune)), nil
+			}
 			l, err := reLang(n)
 			if err != nil {
 				return Term{}, err
 			}
 			x := fc.freshConst("rx", SString)
 			d.facts = append(d.facts, T(SBool, "(str.in_re %s %s)", x.S, l))
+			if k, ok := fixedLen(n); ok {
+				d.facts = append(d.facts, T(SBool, "(= (str.len %s) %d)", x.S, k))
+			}
 			return x, nil
 		}
 		switch n.Op {
